@@ -155,7 +155,7 @@ class WorldScenario(BaseScenario):
 
 
 def make(name: str, *args):
-    if name in WorldScenario.ORACLES:
+    if name in ("C01", "C02", "C06"):
         return WorldScenario(name)
     from . import registry
 
